@@ -17,7 +17,7 @@
        candidates reported by the check; reviewed_sites: argued in Policy.v).
    (4) C10_exported_closed: no exported method of the listed types escapes the analysis. *)
 From Coq Require Import List String Bool.
-From KV Require Import Model.DRF Model.Policy Gen.Skeleton Proofs.DRFSound Proofs.DRFBridge Proofs.DRFCurrent.
+From KV Require Import Model.DRF Model.Policy Gen.Skeleton Proofs.DRFSound Proofs.DRFBridge Proofs.DRFPublish Proofs.DRFCurrent.
 Import ListNotations.
 Open Scope string_scope.
 
@@ -36,11 +36,11 @@ Print Assumptions C10_discipline_sound.
 (* THE obligation a source change breaks: a Lock removed, a field read outside its mutex,
    an atomic counter turned plain, a new field without a policy entry, a new construct the
    translator cannot classify. *)
-Theorem C10_current_discipline :
-  discipline_ok (without exempt accesses) kafka
-  && fields_covered fields kafka
-  && unknowns_reviewed unknowns reviewed_unknowns
-  && handoffs_present kafka chans = true.
+(* current_ok :=  discipline_ok checked_facts kafka          (checked_facts := without exempt accesses)
+                 && fields_covered fields kafka
+                 && unknowns_reviewed unknowns reviewed_unknowns
+                 && handoffs_present kafka chans                        (Proofs/DRFCurrent.v) *)
+Theorem C10_current_discipline : current_ok = true.
 Proof. exact current_discipline. Qed.
 Print Assumptions C10_current_discipline.
 
@@ -51,10 +51,30 @@ Print Assumptions C10_exported_closed.
 
 (* (1)+(2)+(3) combined for the current source *)
 Theorem C10_current_no_race : forall field_of lock_inst tr,
-  wf_locks tr -> conforms (without exempt accesses) field_of lock_inst tr ->
+  wf_locks tr -> conforms checked_facts field_of lock_inst tr ->
   forall x, ipol kafka field_of lock_inst x <> IOther -> ~ race_on tr x.
 Proof. exact current_no_race. Qed.
 Print Assumptions C10_current_no_race.
+
+(* The ownership-phase arguments behind WriteOnceBeforePublish and HandedOff.  Their
+   hypotheses (a publication / hand-off event that happens-before every later access) are
+   what these policy kinds MEAN; the syntactic check only establishes the "written on fresh
+   objects only" / "a channel with a send or close and a receive exists" halves. *)
+Theorem C10_publish_sound : forall tr x t0 p,
+  (exists e, ev tr p = Some (t0, e)) ->
+  (forall i t a, ev tr i = Some (t, a) -> acc_loc a = Some x ->
+     (t = t0 /\ i < p) \/ (is_rd a = true /\ hb tr p i)) ->
+  ~ race_on tr x.
+Proof. exact publish_sound. Qed.
+Print Assumptions C10_publish_sound.
+
+Theorem C10_handoff_sound : forall tr x ts t1 p,
+  (exists e, ev tr p = Some (ts, e)) ->
+  (forall i t a, ev tr i = Some (t, a) -> acc_loc a = Some x ->
+     (t = ts /\ i < p) \/ (t = t1 /\ hb tr p i)) ->
+  ~ race_on tr x.
+Proof. exact handoff_sound. Qed.
+Print Assumptions C10_handoff_sound.
 
 (* The property at full strength is REFUTED on the current tree at the level of the
    discipline: with the exempt sites put back the check fails (Batch.Err, Batch.ReadMessage
@@ -66,8 +86,10 @@ Print Assumptions C10_unexempted_discipline_refuted.
 
 (* The full statement, of which the theorems above prove the part for the checked kinds:
    every location of every listed type is race free in every trace of every client program.
-   Not proved for WriteOnceBeforePublish (needs a publication edge per object) and the
-   trusted kinds HandedOff / Confined / SelfSynchronised / LockTransferred. *)
+   Not proved: for WriteOnceBeforePublish and HandedOff only the phase arguments
+   C10_publish_sound / C10_handoff_sound are proved (their publication hypotheses are not
+   derived from the extracted facts); nothing is proved for the trusted kinds Confined /
+   SelfSynchronised / LockTransferred. *)
 Definition C10_full_statement : Prop :=
   forall field_of lock_inst tr,
     wf_locks tr -> conforms accesses field_of lock_inst tr ->
@@ -76,6 +98,8 @@ Definition C10_full_statement : Prop :=
 (* ---- non-vacuity *)
 Example C10_nonvacuous_trace : wf_locks tr_ok /\ respects pol_ok tr_ok /\ ~ race_on tr_ok 5.
 Proof. exact (conj tr_ok_wf (conj tr_ok_respects tr_ok_no_race)). Qed.
+Example C10_nonvacuous_handoff : handed_off tr_handoff 7 0 1 2.
+Proof. exact tr_handoff_ok. Qed.
 Example C10_race_definable : race_on tr_racy 5.
 Proof. exact tr_racy_race. Qed.
 Example C10_discipline_discriminates :
